@@ -392,6 +392,25 @@ func (ex *Exec) evalDesignator(text string, env *SpecEnv) []designator {
 		}
 		return ds
 	}
+	if strings.HasPrefix(text, "mbox(") && strings.HasSuffix(text, ")") {
+		// the ghost state of a mailbox channel
+		e, err := ParseExpr(text[len("mbox(") : len(text)-1])
+		if err != nil {
+			ex.specFail("assigns %s: %v", text, err)
+		}
+		cv := ex.evalSpec(e, env)
+		ct, ok := under(cv.GoType()).(*types.Chan)
+		if !ok {
+			ex.specFail("assigns %s: not a channel", text)
+		}
+		ch := ex.scalar(cv)
+		out := []designator{{heap: "G|mbox.full", root: ch}}
+		for _, l := range leavesOf(ct.Elem()) {
+			n, _ := ex.mboxLeafHeap(ct.Elem(), l, env.st)
+			out = append(out, designator{heap: n, root: ch})
+		}
+		return out
+	}
 	if strings.HasPrefix(text, "allfields(") && strings.HasSuffix(text, ")") {
 		// field f of every object of struct type T: allfields(pkg.T.f)
 		arg := text[len("allfields(") : len(text)-1]
@@ -605,6 +624,8 @@ func (ex *Exec) builtin(fr *Frame, b *ssa.Builtin, c *ssa.CallCommon, args []Val
 			return Scalar{*ex.topRecovered, c.Value.Type().(*types.Signature).Results().At(0).Type()}
 		}
 		return Scalar{NilIface, c.Value.Type().(*types.Signature).Results().At(0).Type()}
+	case "close":
+		return TupleV{}
 	case "ssa:wrapnilchk":
 		return args[0]
 	case "ssa:deferstack":
